@@ -683,6 +683,7 @@ _frame_re = re.compile(r'^File "(?P<filepath>.+)", line (?P<lineno>\d+)'
                        r', in (?P<funcname>.+)$')
 _se_frame_re = re.compile(r'^File "(?P<filepath>.+)", line (?P<lineno>\d+)')
 _underline_re = re.compile(r'^[~^ ]*$')
+_repeated_re = re.compile(r'^\s*\[Previous line repeated \d+ more times?\]\s*$')
 
 # TODO: ParsedException generator over large bodies of text
 
@@ -745,6 +746,8 @@ class ParsedException:
             source_line = frame.get('source_line')
             if source_line:
                 lines.append(f'    {source_line}')
+            if frame.get('repeated_line'):
+                lines.append(frame['repeated_line'])
         if self.exc_msg:
             lines.append(f'{self.exc_type}: {self.exc_msg}')
         else:
@@ -819,6 +822,10 @@ class ParsedException:
                 if _underline_re.match(tb_lines[line_no + 1]):
                   # To deal with anchors
                   line_no += 1
+                if _repeated_re.match(tb_lines[line_no + 1]):
+                    # recursion: "[Previous line repeated N more times]"
+                    frame_dict['repeated_line'] = tb_lines[line_no + 1]
+                    line_no += 1
             else:
                 break
             line_no += 1
